@@ -243,6 +243,13 @@ def integration_facts(prog: Program, fw: str, ci: ClassInfo) -> Tuple[Dict[str, 
                       not any((n.id in cfg.reachable(e2.dst) or n is e2.dst) for e2, isn2 in none_edges if not isn2)
                       for e, is_none in none_edges)
         if not isinstance(v, ast.Call):
+            # a reply object is built for the request it answers: one kept on the application / module and handed out again cannot be
+            # sent twice by the frameworks (aiohttp: a Response is bound to the request that first sent it) and would carry state over
+            d_ = dotted(v)
+            if d_ and (d_.startswith('self.') or d_.split('.')[0] in f.module.ns) and (on_none or n.id in cfg.reachable(dn)):
+                problems.append(('RELAY', f'shared reply object `{d_}`', n.line,
+                                 f'{fw}: `{norm(n.ast)}` hands out the stored object `{d_}` as the reply: the first request gets it, later ones '
+                                 f'get an object that was already sent (no reply, or the previous reply\'s state)'))
             continue
         kws = {kw.arg: kw.value for kw in v.keywords if kw.arg}
         if on_none:
@@ -292,6 +299,59 @@ def integration_facts(prog: Program, fw: str, ci: ClassInfo) -> Tuple[Dict[str, 
     return facts, problems
 
 
+def media_type_tables(ck: Check, prog: Program) -> None:
+    """GATE-MEDIA (the table the gates compare with): REQUEST_CONTENT_TYPES / RESPONSE_CONTENT_TYPES are tuples of well-formed media
+    types (`type/subtype`, one slash, no blanks), the response types are request types too, and the default content type is one of
+    them — a missing comma between two adjacent string literals silently fuses two entries into one malformed type."""
+    import re
+    cm = prog.modules.get('pjrpc.common')
+    if cm is None:
+        raise AnalysisError('module pjrpc.common not found')
+    vals = {}
+    for st in cm.tree.body:
+        tg = st.targets[0] if isinstance(st, ast.Assign) and len(st.targets) == 1 else getattr(st, 'target', None) if isinstance(st, ast.AnnAssign) else None
+        if isinstance(tg, ast.Name) and tg.id in ('REQUEST_CONTENT_TYPES', 'RESPONSE_CONTENT_TYPES', 'DEFAULT_CONTENT_TYPE') and st.value is not None:
+            vals[tg.id] = (st.value, st.lineno)
+    if set(vals) != {'REQUEST_CONTENT_TYPES', 'RESPONSE_CONTENT_TYPES', 'DEFAULT_CONTENT_TYPE'}:
+        raise AnalysisError(f'pjrpc.common: content type tables not found ({sorted(vals)})')
+    tok = re.compile(r"^[A-Za-z0-9!#$&^_.+-]+/[A-Za-z0-9!#$&^_.+-]+$")
+    tables = {}
+    for name in ('REQUEST_CONTENT_TYPES', 'RESPONSE_CONTENT_TYPES'):
+        v, line = vals[name]
+        if not isinstance(v, (ast.Tuple, ast.List, ast.Set)) or not all(isinstance(e, ast.Constant) and isinstance(e.value, str) for e in v.elts):
+            raise AnalysisError(f'pjrpc.common.{name} is not a display of string literals')
+        items = [e.value for e in v.elts]
+        tables[name] = items
+        bad = [i for i in items if not tok.match(i)]
+        ck.ob('GATE-MEDIA', f'pjrpc.common.{name}: {len(items)} well-formed media types', not bad and bool(items), sample={'types': items})
+        for i in bad:
+            ck.finding('GATE-MEDIA', f'pjrpc.common.{name}', f'malformed media type {i!r}', cm.rel, line,
+                       f'{name} contains {i!r}, which is not a media type (`type/subtype`): two adjacent string literals without a comma are '
+                       f'concatenated, so the documented types it was meant to list are refused with 415')
+    d, dline = vals['DEFAULT_CONTENT_TYPE']
+    ok_d = isinstance(d, ast.Constant) and d.value in tables['REQUEST_CONTENT_TYPES'] and d.value in tables['RESPONSE_CONTENT_TYPES']
+    ok_sub = set(tables['RESPONSE_CONTENT_TYPES']) <= set(tables['REQUEST_CONTENT_TYPES'])
+    ck.ob('GATE-MEDIA', 'the default content type is an accepted request and response type; response types are request types', ok_d and ok_sub)
+    if not (ok_d and ok_sub):
+        ck.finding('GATE-MEDIA', 'pjrpc.common', 'content type tables disagree', cm.rel, dline,
+                   f'DEFAULT_CONTENT_TYPE={norm(d)} REQUEST={tables["REQUEST_CONTENT_TYPES"]} RESPONSE={tables["RESPONSE_CONTENT_TYPES"]}: what the '
+                   f'library itself sends must be accepted by its own server gates and client checks')
+
+
+def route_bind(ck: Check, prog: Program) -> None:
+    """ROUTE-BIND for every integration: each registered route is bound to its own endpoint's dispatcher at registration time."""
+    for fw, (cq, wsgi) in INTEGRATIONS.items():
+        ci = prog.cls(cq)
+        lb = late_bound_closures(prog, ci)
+        ck.ob('ROUTE-BIND', f'{fw}: handlers registered in a loop capture their endpoint\'s dispatcher by value (partial / default argument)', not lb)
+        for m, node, names in lb:
+            ck.functions.add(m.qualname)
+            ck.finding('ROUTE-BIND', m.qualname, f'closure over loop variable {names}', m.module.rel, node.lineno,
+                       f'`{norm(node)[:90]}` is created inside a loop and reads the loop variable(s) {names} only when it is called: every '
+                       f'route registered by the loop ends up with the LAST endpoint\'s dispatcher, so a request to one endpoint is answered '
+                       f'by another endpoint\'s dispatcher (functools.partial(..., dispatcher=dispatcher) binds the value)')
+
+
 def run(ck: Check, prog: Program) -> None:
     ck.explain('Per integration (aiohttp, flask, werkzeug): the media-type gate compares a parameter-free media-type accessor of the '
                'framework with pjrpc.common.REQUEST_CONTENT_TYPES and dominates the dispatch call; a refusal is answered (an HTTP '
@@ -301,6 +361,7 @@ def run(ck: Check, prog: Program) -> None:
     ck.trusted.append('framework accessor table: aiohttp Request.content_type and werkzeug/flask Request.mimetype are parameter-free media '
                       'types; werkzeug/flask Request.content_type is the raw header; Request.is_json is true only for application/json and +json')
     ck.not_decided += ['equality of replies on concrete bodies', 'integrations other than aiohttp / flask / werkzeug']
+    media_type_tables(ck, prog)
     records = {}
     # helpers extracted from the request handlers (reading the body, building the reply) are looked at as part of them
     from ..inline import inlined_program
@@ -357,6 +418,11 @@ def run(ck: Check, prog: Program) -> None:
 
 
 MUTANTS = [
+    dict(name='shared-empty-reply-object', file='pjrpc/server/integration/aiohttp.py',
+         find='            return web.Response()\n', replace='            return self._no_content\n', expect='RELAY'),
+    dict(name='media-type-table-missing-comma', file='pjrpc/common/__init__.py',
+         find="REQUEST_CONTENT_TYPES = ('application/json', 'application/json-rpc', 'application/jsonrequest')",
+         replace="REQUEST_CONTENT_TYPES = ('application/json', 'application/json-rpc' 'application/jsonrequest')", expect='GATE-MEDIA'),
     dict(name='gate-after-dispatch', file='pjrpc/server/integration/aiohttp.py',
          find='''        if http_request.content_type not in pjrpc.common.REQUEST_CONTENT_TYPES:
             raise web.HTTPUnsupportedMediaType()
